@@ -772,3 +772,23 @@ def _c19(prop, tier, seed, t0):
 CHECKS["C19"] = _c19
 META["C19"]["text"] += " In the other direction, random histories (20-60 operations each, ids dense, around the 128-slot chunk boundaries and up to 5000) are recorded from the real Mapping with the full observation after every operation and followed through Mapping.tla by TLC (Trace_Mapping.tla)."
 META["C19"]["technique"] = "TLC state-graph generation + replay of every transition into the real Mapping; TLA+ trace validation of random histories"
+
+
+# ---------------------------------------------------------------------------
+# texts added with the step rules, the step-exact replay and the profiles of round 5
+# ---------------------------------------------------------------------------
+_SX = (" Recorded executions are additionally re-run through the watch-faithful model LazyCdclW with the decisions the code took "
+       "(Trace_CdclW.tla, re-using the model's actions): clauses, propagation, learnt clauses, backjumps, restarts and the result are "
+       "computed by the model and compared with the code (reproduced exactly on the unchanged tree), and TLC evaluates the model's "
+       "invariants along these real executions; a divergence is recorded in the evidence as a conformance finding, not reported as a violation.")
+for _p in ("C01", "C02", "C03", "C05", "C07", "C08", "C14", "C15"):
+    META[_p]["text"] += _SX
+META["C01"]["text"] += " Step rules: no clause is falsified when the solver moves on to a decision; every clause the rules demand for an installed solvable is in the database (requirements, constrains pairs, locks, exclusions, pairwise at-most-one through the helper variables)."
+META["C02"]["text"] += " Step rules from LazyCdcl!TrailConsistent: levels never decrease along the trail, a decision opens the next level, an implied literal is not assigned below its antecedents; encoding completeness counts (a verdict is only as good as the clause database)."
+META["C05"]["text"] += " Step rules from the guard of LazyCdcl!Decide, judged on every real decision: it serves a still unmet requirement of an installed solvable and takes one of its candidates."
+META["C07"]["text"] += " Step rules: every requires clause lists the candidates of each version set in Universe!Sorted order (provider order, favored first), and every decision takes the first candidate of its clause that is not ruled out; long candidate lists (18-45 candidates) included."
+META["C14"]["text"] += " Step rule from LazyCdcl's treatment of soft runs: a run for a soft requirement never removes from the trail what the runs before it established."
+META["C15"]["text"] += " On every returned solution TLC requires AtMostOne!Excl of the real clause stream: any two candidate variables of one package clash on a helper variable (C15_PairNotExcluded)."
+META["C17"]["text"] += " The C++ driver keeps ONE result vector (and a second handle on its buffer) across all solves, so a solve has to replace what an earlier one left behind; the drivers also run under UndefinedBehaviorSanitizer."
+META["C18"]["text"] += " Unions of one to four members (the three representations of the small vector behind a union) are interned through iterators with and without an exact size."
+META["C20"]["text"] += " Real solves over packages with 18-45 candidates and a favored candidate are validated by TLC against Universe!Sorted (the sorted list as the solver receives it; rule C07_ClauseCandidateOrder)."
